@@ -181,6 +181,39 @@ def run(tier, seed, rng):
         elif o.get('err') != 'unpacking':
             failures.append(dict(kind='oracle', sig='strict-aligned-until', what=f"a valid encoding of {len(raw)} bytes cut at {cut}: the terminating element of the until-sequence is not (entirely) there, the parse must fail with a PacketError",
                                  classes=asrc.split('class AU')[0] + 'class ' + [c for c in asrc.split('class ') if c.startswith(nm + '(')][0], cls=nm, raw=raw[:cut].hex(), offset=0, observed=o))
+    # ---- read-to-the-end strings (until_marker=EOS, the documented alias of re.compile(b'$')) in classes with a search window: the
+    # window is documented NOT to apply to them -- the value is every byte up to the end of the input, not the first N of them
+    esrc, ecases2, emeta2 = "from bisturi.field import EOS\n", [], []
+    for N in (2, 8):
+        for incl in (False, True):
+            for gen_ in (True, False):
+                for spell in ('EOS', "re.compile(b'$')"):
+                    nm = f"EO{N}{'i' if incl else 'x'}{'' if gen_ else 'L'}{'a' if spell == 'EOS' else 'b'}"
+                    conf = {'search_buffer_length': N}
+                    if not gen_: conf.update(generate_for_pack=False, generate_for_unpack=False)
+                    esrc += (f"class {nm}(Packet):\n    __bisturi__ = {conf!r}\n    kind = Int(1)\n    title = Data(until_marker=b'\\0')\n    body = Data(until_marker={spell}, include_delimiter={incl})\n"
+                             f"class {nm}H(Packet):\n    __bisturi__ = {conf!r}\n    h = Int(1)\n    note = Ref({nm})\n")
+                    for L in list(range(0, N + 4)) + [N + 9, 40]:
+                        body = bytes(0x61 + (i % 7) for i in range(L))
+                        raw = b'\x05t\x00' + body
+                        ecases2.append(dict(cls=nm, op='roundtrip', raw=raw.hex(), offset=0)); emeta2.append((nm, N, L, raw, 3))
+                        ecases2.append(dict(cls=nm + 'H', op='roundtrip', raw=(b'\x09' + raw).hex(), offset=0)); emeta2.append((nm + 'H', N, L, b'\x09' + raw, 4))
+    eres2 = run_impl(os.path.join(VERIF, 'harness', 'impl_pkt.py'), dict(header=decl.HEADER_PY, blocks=[dict(name='eos', src=esrc)], modname='c04e', cases=ecases2))
+    dist['read_to_end_with_window_cases'] = len(ecases2)
+    def _find_body(f):
+        for n, v in f:
+            if n == 'body':
+                return v
+            if isinstance(v, dict) and 'f' in v:
+                r = _find_body(v['f'])
+                if r is not None:
+                    return r
+        return None
+    for (nm, N, L, raw, at), o in zip(emeta2, eres2['outcomes']):
+        got = _find_body(o['ok']['f']) if 'ok' in o else None
+        if 'ok' not in o or got != {'x': raw[at:].hex()} or o.get('end') != len(raw) or (o.get('packed') or {}).get('ok') != raw.hex():
+            failures.append(dict(kind='oracle', sig='read-to-end-window', what=f"a read-to-the-end string in a class with search_buffer_length {N}: {L} bytes are left, the value must be all of them (end {len(raw)}, the same bytes back)",
+                                 classes=esrc.split('class ')[0] + 'class ' + 'class '.join(c for c in esrc.split('class ')[1:] if c.startswith((nm.rstrip('H') + '(', nm + '('))), cls=nm, raw=raw.hex(), offset=0, observed=o))
     # ---- a computed size below zero is not "as many bytes as the declaration requires": the parse must fail (if it went on, the
     # cursor would move backwards and later fields would be decoded from bytes already consumed)
     nsrc = ("class NF(Packet):\n    n = Int(1, signed=True)\n    d = Data(n)\n    t = Int(2)\n"
